@@ -4,6 +4,7 @@ import ObiVerif.Lemmas.PcrCircular
 import ObiVerif.Lemmas.PcrFrag
 import ObiVerif.Lemmas.PcrGrammar
 import ObiVerif.Lemmas.PcrMore
+import ObiVerif.Lemmas.PcrEnds
 /-!
 # C11 — in-silico PCR returns exactly the amplicons the primers define, on either strand (property theorems)
 
@@ -945,6 +946,36 @@ theorem pcr_strand_symmetry_circular_all (P : Primers) (hP : PrimersOk P) (hM : 
     exact List.Perm.refl _
   · exact pcr_strand_symmetry_circular_obs P hP hM o hc seq hs (primersFit_of_not_unfit P hlen _ hu) l l' h h'
 
+/-- the annotations of a record seen from another origin of the circle: unchanged -/
+theorem annotate_rotAmp (fwd rev : Bytes) (tpl : Annot) (L r : Nat) (x : Amplicon) :
+    annotate fwd rev tpl (rotAmp L r x) = annotate fwd rev tpl x := rfl
+
+/-- **rotation invariance, annotations included, circles of every length**: the set of (nucleotides, annotation map) reported
+for a rotated circular template is the one reported for the template -/
+theorem pcr_rotation_annot (P : Primers) (hP : PrimersOk P) (hlen : P.cfwd.patlen = P.forward.patlen ∧ P.crev.patlen = P.reverse.patlen)
+    (o : Opts) (hc : o.circular = true) (seq : Bytes) (r : Nat) (fwd rev : Bytes) (tpl : Annot) (l l' : List Amplicon)
+    (h : pcr P o seq = .ok l) (h' : pcr P o (rotl seq r) = .ok l') :
+    ∀ t, t ∈ l'.map (fun a => (a.seq, annotate fwd rev tpl a)) ↔ t ∈ l.map (fun a => (a.seq, annotate fwd rev tpl a)) := by
+  by_cases hu : seq.length < P.forward.patlen ∨ seq.length < P.reverse.patlen
+  · have e1 := pcr_circular_unfit P hP hlen o hc seq hu
+    have e2 := pcr_circular_unfit P hP hlen o hc (rotl seq r) (by rw [rotl_length]; exact hu)
+    rw [e1] at h; rw [e2] at h'
+    cases h; cases h'
+    intro t; rfl
+  · have hL := primersFit_of_not_unfit P hlen _ hu
+    intro t
+    constructor
+    · intro ht
+      obtain ⟨y, hy, rfl⟩ := List.mem_map.mp ht
+      have hback : pcr P o (rotl (rotl seq r) (seq.length - r % seq.length)) = .ok l := by
+        rw [rotl_rotl_back]; exact h
+      have hL' : PrimersFit P (rotl seq r).length := by rw [rotl_length]; exact hL
+      have := pcr_rotation_mem P hP o hc (rotl seq r) hL' (seq.length - r % seq.length) l' l h' hback y hy
+      exact List.mem_map.mpr ⟨_, this, rfl⟩
+    · intro ht
+      obtain ⟨x, hx, rfl⟩ := List.mem_map.mp ht
+      exact List.mem_map.mpr ⟨_, pcr_rotation_mem P hP o hc seq hL r l l' h h' x hx, rfl⟩
+
 /-- non-vacuity / test: on the circle `acgt` the matcher reports a site of the 7-position pattern ACGTACG (the buffer is
 `acgtacgt`), and the PCR with that forward primer reports nothing -/
 example : (findAllIndex ⟨[65, 67, 71, 84, 65, 67, 71], [1, 4, 64, 524288, 1, 4, 64], 0, false⟩ [97, 99, 103, 116] true 0 (-1)
@@ -1071,10 +1102,10 @@ theorem cli_whole (P : Primers) (lf lr : Nat) (mn mx delta : Int) (full circ fra
     rcases h with h | h <;> simp [h]
   unfold cliRun
   rw [hp]
-  simp only [pcrSlice, List.map_cons, List.map_nil, List.drop_zero, Nat.sub_zero, List.take_length]
+  simp only [pcrCuts, cutsOf, pcrSliceE, List.map_cons, List.map_nil, List.drop_zero, Nat.sub_zero, List.take_length]
   cases hpc : pcr P (cliOpts mn mx delta full circ) t with
-  | error e => simp [List.mapM_cons, hpc, Except.map, bind, Except.bind]
-  | ok l => simp [List.mapM_cons, List.mapM_nil, hpc, Except.map, bind, Except.bind, pure, Except.pure]
+  | error e => simp [List.mapM_cons, pcrE_none, hpc, Except.map, bind, Except.bind]
+  | ok l => simp [List.mapM_cons, List.mapM_nil, pcrE_none, hpc, Except.map, bind, Except.bind, pure, Except.pure]
 
 /-- … and with `--fragmented` on a linear template the pieces are those of `IFragments` with the parameters of
 `cliFragParams` (`cli_fragmented` says when their union is the set of amplicons of the template) -/
@@ -1091,6 +1122,120 @@ example :
     pcrL exPrimers (cliOpts 2 5 (-1) false false) [116, 97, 99, 103, 116, 116, 99, 99, 97, 97] = [] ∧
     cliWindow 3 false 10 1 3 5 3 = some (0, 10) := by decide
 
+/-! ### pieces that know which of their ends are ends of the template (patch `C11-fragment-inner-ends`)
+
+`IFragments` marks the ends of a piece that are not ends of the fragmented sequence; the patched `_Pcr` (`pcrE e`, marks `e`)
+skips a pair of sites whose flank a marked end would clip.  This closes the finding `C11-frag-clipped-flank`: the fragmented
+search now returns exactly the amplicons of the template in EVERY linear mode. -/
+
+/-- a template that is not a piece (no mark): the patched `_Pcr` is the one all the theorems above are about -/
+theorem pcr_unmarked (P : Primers) (o : Opts) (seq : Bytes) : pcrE Ends.none P o seq = pcr P o seq := pcrE_none P o seq
+
+/-- `pcrLE` is what the patched `_Pcr` returns on a linear template (it always returns) -/
+theorem pcrLE_eq (e : Ends) (P : Primers) (hP : PrimersOk P) (o : Opts) (hc : o.circular = false) (seq : Bytes) :
+    pcrE e P o seq = .ok (pcrLE e P o seq) := pcrLE_spec e P hP o hc seq
+
+/-- **the patched `_Pcr` on a marked template** reports the records of the unmarked template except those whose flank a
+marked end would clip (`endsReject`: `--delta e` without `--only-complete-flanking`, and the direct site starts less than `e`
+symbols after a marked start or the complemented site ends less than `e` symbols before a marked end) -/
+theorem pcr_marked_iff (e : Ends) (P : Primers) (hP : PrimersOk P) (o : Opts) (hc : o.circular = false) (seq : Bytes)
+    (x : Amplicon) :
+    x ∈ pcrLE e P o seq ↔ x ∈ pcrL P o seq ∧ endsReject e o seq.length x.hitD x.hitC = false :=
+  mem_pcrLE_iff e P hP o hc seq x
+
+/-- **one piece, every linear mode**: the piece `[a, b)` marked as `IFragments` marks it (`pieceEnds`: start marked iff
+`a > 0`, end marked iff `b < L`) reports exactly those of its records that, moved to the coordinates of the template, are
+records of the template — nothing spurious any more. -/
+theorem pcr_piece_marked (P : Primers) (hP : PrimersOk P) (o : Opts) (hc : o.circular = false) (seq : Bytes) (a b : Nat)
+    (hab : a ≤ b) (hb : b ≤ seq.length) (y : Amplicon) :
+    y ∈ pcrLE (pieceEnds seq.length (a, b)) P o (seg seq a b) ↔
+      y ∈ pcrL P o (seg seq a b) ∧ shiftAmp a y ∈ pcrL P o seq := by
+  rw [mem_pcrLE_iff _ P hP o hc]
+  simp only [mem_pcrL_iff P hP o hc]
+  have dirS : (shiftAmp a y).isForward = y.isForward := rfl
+  constructor
+  · rintro ⟨hy | hy, hr⟩
+    · exact ⟨Or.inl hy, Or.inl ((block_piece_marked true _ _ hP.forward hP.crev _ _ (Int.natCast_nonneg _) o hc seq a b hab hb y hy).mpr hr)⟩
+    · exact ⟨Or.inr hy, Or.inr ((block_piece_marked false _ _ hP.reverse hP.cfwd _ _ (Int.natCast_nonneg _) o hc seq a b hab hb y hy).mpr hr)⟩
+  · rintro ⟨hy | hy, hs | hs⟩
+    · exact ⟨Or.inl hy, (block_piece_marked true _ _ hP.forward hP.crev _ _ (Int.natCast_nonneg _) o hc seq a b hab hb y hy).mp hs⟩
+    · have d1 := block_dir _ _ _ _ _ _ _ _ hy
+      have d2 := block_dir _ _ _ _ _ _ _ _ hs
+      rw [dirS, d1] at d2; cases d2
+    · have d1 := block_dir _ _ _ _ _ _ _ _ hy
+      have d2 := block_dir _ _ _ _ _ _ _ _ hs
+      rw [dirS, d1] at d2; cases d2
+    · exact ⟨Or.inr hy, (block_piece_marked false _ _ hP.reverse hP.cfwd _ _ (Int.natCast_nonneg _) o hc seq a b hab hb y hy).mp hs⟩
+
+/-- **the fragmented search with marked pieces returns exactly the amplicons of the template — every linear mode**, flanks that
+may be clipped included (compare `pcr_fragmented`, which needs `hm`): union over the pieces = amplicons of the template, under
+the overlap condition of `pcr_fragmented_complete`. -/
+theorem pcr_fragmented_marked (P : Primers) (hP : PrimersOk P) (o : Opts) (hc : o.circular = false) (hmax : o.maxLength > 0)
+    (seq : Bytes) (minsize length overlap : Int) (ps : List (Nat × Nat))
+    (hfr : fragments minsize length overlap seq.length = some (some ps)) (hov : 0 ≤ overlap)
+    (hw1 : o.maxLength + P.forward.patlen + P.crev.patlen + 2 * o.flank ≤ overlap + 1)
+    (hw2 : o.maxLength + P.reverse.patlen + P.cfwd.patlen + 2 * o.flank ≤ overlap + 1) (x : Amplicon) :
+    x ∈ pcrL P o seq ↔
+      ∃ p ∈ ps, ∃ y ∈ pcrLE (pieceEnds seq.length p) P o (seg seq p.1 p.2), shiftAmp p.1 y = x := by
+  constructor
+  · intro hx
+    obtain ⟨p, hp, y, hy, he⟩ := pcr_fragmented_complete P hP o hc hmax seq minsize length overlap ps hfr hov hw1 hw2 x hx
+    have hpv := fragments_pieces minsize length overlap seq.length ps hfr hov p hp
+    refine ⟨p, hp, y, ?_, he⟩
+    exact (pcr_piece_marked P hP o hc seq p.1 p.2 (by omega) hpv.2 y).mpr ⟨hy, by rw [he]; exact hx⟩
+  · rintro ⟨p, hp, y, hy, rfl⟩
+    have hpv := fragments_pieces minsize length overlap seq.length ps hfr hov p hp
+    exact ((pcr_piece_marked P hP o hc seq p.1 p.2 (by omega) hpv.2 y).mp hy).2
+
+/-- **`obipcr --fragmented`, every combination of `-l`, `-L`, `--delta`, `--only-complete-flanking`** (linear template longer than
+`1000·L`, primers of the grammar, `overlap < 100·L`): the union of what the patched `_Pcr` reports for the marked pieces is the
+set of amplicons of the template (`cli_linear_spec` says which these are).  `cli_fragmented` without its hypothesis on the
+flanks. -/
+theorem cli_fragmented_marked (tf tr : List Tok) (hf : ∀ t ∈ tf, t.WF) (hr : ∀ t ∈ tr, t.WF)
+    (hfn : tf ≠ []) (hrn : tr ≠ []) (hfl : tf.length ≤ 63) (hrl : tr.length ≤ 63) (e : Nat)
+    (mn mx delta : Int) (full : Bool) (hmx : 0 < mx) (seq : Bytes)
+    (hlong : mx * 1000 < seq.length)
+    (hstep : (cliFragParams mx (patStr tf).length (patStr tr).length delta).2.2 < mx * 100) :
+    ∃ P ps, mkPrimers (patStr tf) (patStr tr) e e = some P ∧
+      cliPieces mx (patStr tf).length (patStr tr).length delta false true seq.length = some (some ps) ∧
+      ∀ x, x ∈ pcrL P (cliOpts mn mx delta full false) seq ↔
+        ∃ p ∈ ps, ∃ y ∈ pcrLE (pieceEnds seq.length p) P (cliOpts mn mx delta full false) (seg seq p.1 p.2), shiftAmp p.1 y = x := by
+  obtain ⟨P, hP, hok, _, l1, l2, l3, l4, _⟩ := mkPrimers_grammar tf tr hf hr hfn hrn hfl hrl e e
+  have g1 := patStr_length_ge tf hf
+  have g2 := patStr_length_ge tr hr
+  obtain ⟨ps, hps⟩ := fragments_total (cliFragParams mx (patStr tf).length (patStr tr).length delta).1
+    (cliFragParams mx (patStr tf).length (patStr tr).length delta).2.1
+    (cliFragParams mx (patStr tf).length (patStr tr).length delta).2.2 seq.length hlong hstep
+  refine ⟨P, ps, hP, by rw [cli_pieces_fragmented]; exact hps, ?_⟩
+  have hflank : (cliOpts mn mx delta full false).flank = if delta ≥ 0 then delta else 0 := by
+    unfold Opts.flank
+    rw [(cliOpts_spec mn mx delta full false).2.2.2.1]
+    by_cases h : delta ≥ 0
+    · rw [if_pos (by simpa using h), if_pos h, (cliOpts_spec mn mx delta full false).2.2.2.2.1 (by omega)]
+    · rw [if_neg (by simpa using h), if_neg h]
+  have hov : 0 ≤ (cliFragParams mx (patStr tf).length (patStr tr).length delta).2.2 := by
+    unfold cliFragParams; simp only []; split <;> omega
+  intro x
+  apply pcr_fragmented_marked P hok _ rfl hmx seq _ _ _ ps hps hov
+  · rw [hflank, l1, l4]; unfold cliFragParams; simp only [cliOpts]; split <;> omega
+  · rw [hflank, l3, l2]; unfold cliFragParams; simp only [cliOpts]; split <;> omega
+
+/-- non-vacuity / test (evaluation of the model): three copies of `tacgttccaa`, primers ACG / GGA, `-L 1 --delta 2`, pieces
+`[0, 20)` and `[6, 30)`.  The amplicon at 15 has its left flank `[9, 11)` inside both pieces and is reported by both; the
+amplicon at 5 (sites and flanks `[0, 10)`, left flank clipped by the START OF THE TEMPLATE: reported, by the first piece) would
+have its left flank clipped by the start of the second piece `[6, …)`: unmarked, that piece reports it with the window `[6, 10)`
+(spurious); marked, it skips it. -/
+example :
+    (pcrL exPrimers ⟨0, 1, false, 2, false⟩ exTpl3).map (fun x => (x.idFrom, x.idTo)) = [(1, 10), (10, 20), (20, 30)] ∧
+    (pcrL exPrimers ⟨0, 1, false, 2, false⟩ (seg exTpl3 6 30)).map (fun x => ((shiftAmp 6 x).idFrom, (shiftAmp 6 x).idTo)) =
+      [(10, 20), (20, 30)] ∧
+    (pcrL exPrimers ⟨0, 1, false, 2, false⟩ (seg exTpl3 10 30)).map (fun x => ((shiftAmp 10 x).idFrom, (shiftAmp 10 x).idTo)) =
+      [(11, 20), (20, 30)] ∧
+    (pcrLE (pieceEnds 30 (10, 30)) exPrimers ⟨0, 1, false, 2, false⟩ (seg exTpl3 10 30)).map
+      (fun x => ((shiftAmp 10 x).idFrom, (shiftAmp 10 x).idTo)) = [(20, 30)] ∧
+    (pcrLE (pieceEnds 30 (0, 20)) exPrimers ⟨0, 1, false, 2, false⟩ (seg exTpl3 0 20)).map
+      (fun x => ((shiftAmp 0 x).idFrom, (shiftAmp 0 x).idTo)) = [(1, 10), (10, 20)] := by decide
+
 /-!
 ## what is left
 
@@ -1102,9 +1247,10 @@ example :
   `pcr_strand_symmetry_grammar`, `pcr_strand_symmetry_circular_grammar`);
 * a circular window (sites + flanks) longer than the circle: the code returns it modulo the length
   (`pcr_circular_window_counterexample`), open finding;
-* `obipcr --fragmented` with clipped flanks: open finding, characterised exactly by `pcr_piece_clipped` +
-  `pcr_piece_clipped_exact` (a repair needs the pieces to know which of their ends are ends of the template: a flag set by
-  `IFragments` and read by `_Pcr` — two packages, not proposed as a patch);
+* `obipcr --fragmented` with clipped flanks: repaired (patch `C11-fragment-inner-ends`: the pieces know which of their ends
+  are ends of the template; `pcr_piece_marked`, `pcr_fragmented_marked`, `cli_fragmented_marked`); `pcr_piece_clipped` /
+  `pcr_piece_clipped_exact` describe what `_Pcr` does on an UNMARKED piece (the former behaviour, still that of
+  `PCRSlice` on sequences cut by other means);
 * `obipcr --fragmented --circular`: repaired (patch `C11-circular-not-fragmented`: circular templates are searched whole,
   `cli_whole`);
 * the annotation map is modelled for integer and string values of the template annotations (`annotate`); that
